@@ -37,12 +37,19 @@ def recipe(c: Check):
     cnt = c.cov.get("coq_counters", {}).get("config", {})
     if st is not None and cnt:
         for name, least in (("NROUNDOK", 100), ("NDOMAINBELONGS", 5), ("NDOMAINCASEONLY", 2), ("NINVALID", 50), ("NUNKNOWNTYPE", 5),
-                            ("NTEMPLATEOK", 30), ("NTLSFLAGON", 6), ("NENVOK", 14), ("NENVEQ", 8), ("NSTRICTREJ", 100)):
+                            ("NTEMPLATEOK", 30), ("NTLSFLAGON", 6), ("NENVOK", 14), ("NENVEQ", 8), ("NSTRICTREJ", 100),
+                            ("NSECTIONREJ", 80), ("NSECTIONACC", 80)):
             if cnt.get(name, 0) < least:
                 c.broken.append(dict(kind="coverage", name="counter %s = %s < %s: the generator no longer reaches a branch the property names"
                                      % (name, cnt.get(name, 0), least), detail=""))
     if st is not None:
         f = st.get("formats") or {}
+        ini = f.get("ini") or {}
+        for name, least in (("documents", 50), ("sections_proxy", 200), ("sections_visitor", 50), ("list_allow_users:absent", 20),
+                            ("list_allow_users:empty", 20), ("list_allow_users:given", 20), ("list_custom_domains:absent", 20),
+                            ("list_locations:absent", 5)):
+            if ini.get(name, 0) < least:
+                c.broken.append(dict(kind="coverage", name="ini counter %s = %s < %s" % (name, ini.get(name, 0), least), detail=""))
         fl = f.get("flags") or {}
         tp = f.get("templates") or {}
         for src, name, least in ((f, "documents_client", 50), (f, "documents_server", 20), (f, "strict_unknown_rejected", 100),
@@ -53,6 +60,8 @@ def recipe(c: Check):
         # observations recorded, not alarms (reported in design/C18.md): kept visible in the evidence
         c.notes.append("flag/file default divergences observed: %s" % json.dumps(fl.get("default_divergences", {}), sort_keys=True))
         c.notes.append("--dashboard_tls_mode true: %s" % fl.get("dashboard_tls_mode_true"))
+        c.notes.append("port fields not range-checked by validation accept out-of-range values: %s"
+                       % json.dumps((st.get("ports") or {}).get("unchecked_fields_accepting_out_of_range", {}), sort_keys=True))
     return c.finish(
         rule="config driver: (a) generated client configurations over all eight proxy types (unicode names, nil vs empty maps/slices, boundary "
              "ports, mixed-case domains around several subDomainHost values, bandwidth literals, plugins) -> real Complete, MarshalToMsg, JSON "
@@ -68,7 +77,11 @@ def recipe(c: Check):
              "chosen process environment (values with '=', trailing '==', '=' first, empty, unicode, long), the child renders / loads a templated "
              "file through LoadFileContentWithTemplate(path, GetValues()) and LoadClientConfig, compared with Model/Template.v env_build; (h) strict and non-strict LoadConfigure calls running concurrently from "
              "several goroutines on documents with an unknown key at the top / proxy / proxy.transport / proxy.plugin / visitor level, every answer "
-             "compared with the verdict Proofs/StrictLoadProofs.v proves for every schedule. distinct = distinct case text; "
+             "compared with the verdict Proofs/StrictLoadProofs.v proves for every schedule; (i) every int field named *Port of the server, "
+             "client-common, proxy and visitor structs (found by reflection) set to -65536..70000 on a valid configuration and run through the real "
+             "ValidateServerConfig / ValidateClientCommonConfig / ValidateVisitorConfigurer / ValidateProxyConfigurerForClient vs Model/ValidateSections.v, "
+             "plus generated whole sections with one invalid setting; (j) every proxy and visitor type as a legacy ini section (optional list settings "
+             "absent / empty / given) vs its TOML form through LoadClientConfig. distinct = distinct case text; "
              "non-trivial = every case (each carries a generated input)",
         assumptions=["strconv.ParseFloat / float product is an oracle: bandwidth theorems hold for any such function; the harness fills it with observed values",
                      "TOML/YAML/JSON parsers, text/template, cobra/pflag are third-party: their agreement is observed on generated documents, not proved",
